@@ -34,6 +34,17 @@ package waddrmgr
 //@   replay waddrmgr_fault.go
 //@ func putChainedAddress(ns, scope, addressID, account, status, branch, index, addrType) (err)
 //@   replay waddrmgr_fault.go
+// added wave3
+// (C08) the account row rewritten with a chained address carries index+1 in the slot of the address's OWN branch
+// (watch-only account rows; PCA_NV = the stored row, its byte 0 the account type, bytes 5..8 the public-key length)
+// added wave3
+//@   ensures watch_only_next_index_in_branch_slot@C08@C03: err == nil && scope != nil && ns != nil && bat(PCA_NV(), 0) == 1 && blen(PCA_NV()) < 2147483648 && index < 4294967295 ==> HAS(PCA_B(), K_u32(account)) && (branch == 1 ==> (forall j Int :: {bat(PCA_NV(), j)} 17 + PCA_P() <= j && j < 21 + PCA_P() ==> bat(PCA_NV(), j) == le32byte(index + 1, j - 17 - PCA_P()))) && (branch != 1 ==> (forall j Int :: {bat(PCA_NV(), j)} 13 + PCA_P() <= j && j < 17 + PCA_P() ==> bat(PCA_NV(), j) == le32byte(index + 1, j - 13 - PCA_P())))
+// added wave3
+//@ macro PCA_B() = sub(B_SCOPE(ns, scope), bytes(acctBucketName))
+// added wave3
+//@ macro PCA_NV() = VAL(PCA_B(), K_u32(account))
+// added wave3
+//@ macro PCA_P() = le32(bat(PCA_NV(), 5), bat(PCA_NV(), 6), bat(PCA_NV(), 7), bat(PCA_NV(), 8))
 
 // ---- C15 / C08: sync state (height -> block hash, synced-to stamp) ----
 //@ macro B_SYNC(ns) = sub(bid(ns), bytes(syncBucketName))
